@@ -164,7 +164,7 @@ def run(report):
     report.exhaustive = True
     # sampled larger skeletons
     n_sh = env.NPROC
-    per = (250 if quick else 3000)
+    per = (500 if quick else 4000)
     sitems = [(env.sub_seed(report.seed, "C05", "sample", i), per, 10 if quick else 14)
               for i in range(n_sh)]
     for part in env.pmap(_sample_shard, sitems):
